@@ -116,7 +116,7 @@ fn run_one(v: &Value, out: &mut Vec<String>) {
     let fin = format!("{:?}", sim.st);
     sim.log(json!({"e":"end","st":fin}));
     unsafe {
-        EPOCH += sim.now.min(400 * 86_400 * 1_000_000_000) + 1_000_000_000;
+        EPOCH = 2_000_000_000_000 + (EPOCH + 1_000_000_000) % 1_000_000_000_000;
     }
     out.append(&mut sim.trace);
     unsafe { psim::PSIM = None };
